@@ -119,13 +119,18 @@ prop("C19", ["prims.go", "c17.go"],
 
 # ------------------------------------------------------------------------------------------------ C15 / C14
 prop("C15", ["prims.go", "c15.go"],
-     [run("reattach", "harnessC15", ["nothing-listening", "reattached", "test-mode"],
-          quick={"bound": "something listening or not x Reattach.Protocol in {\"\", netrpc, grpc} x Test flag x three allowed lists; ReattachFunc and pid-based reattach through the real cmdrunner.ReattachFunc / CmdAttachedRunner / pidWait (modelled ticker and signal-0 probe)"})],
-     [NET, CTX, "os.FindProcess/Signal(0)/Kill modelled by a ghost process table; time.NewTicker on the symbolic clock; net.Dial succeeds iff something listens at the address"],
-     ["net.Dial", "os.FindProcess", "os.Process.Signal/Kill", "time.Ticker"],
-     "reattach-after-death histories longer than one step; the plugin side of test mode (Serve with ServeTestConfig) in this run",
-     text="Bounded symbolic model checking of the real reattach / ReattachConfig / Kill with cmdrunner.ReattachFunc, CmdAttachedRunner and pidWait: nothing listening => ErrProcessNotFound; address, protocol (net/rpc default) and ReattachConfig are the running plugin's; Kill on a reattached client kills that process, and in test mode leaves it alive.",
-     note="Bound: single reattach step per path. Process table, dial and ticker are models. " + ENGINE)
+     [run("reattach", "harnessC15", ["nothing-listening", "reattached", "test-mode", "refused-protocol", "real-process"],
+          quick={"bound": "something listening or not x Reattach.Protocol in {\"\", netrpc, grpc} x Test flag x three allowed lists; pid-based reattach through the real cmdrunner.ReattachFunc / CmdAttachedRunner / pidWait (modelled ticker and signal-0 probe)"}),
+      run("test-mode", "harnessC15testMode", ["second-hand", "server-survives-kill", "stopped-by-context"], files=["prims.go", "w_base.go", "w_net.go", "w_yamux.go", "w_grpc.go", "w_compose.go", "w_harness.go"],
+          quick={"bound": "an in-process test-mode Serve (net/rpc and gRPC) x histories: reattach at first hand; take ReattachConfig from the reattached client and reattach at second hand; Kill on either; reattach again; cancel the context"}),
+      run("process", "harnessC15process", ["reattached", "reattach-after-death"], files=["prims.go", "w_base.go", "w_net.go", "w_yamux.go", "w_grpc.go", "w_compose.go", "w_harness.go"],
+          quick={"bound": "a plugin process launched through exec.Cmd (net/rpc and gRPC): start, take the reattach config, reattach, dispense and call through both clients, kill via the reattached client, reattach after death"})],
+     [NET, CTX, "os.FindProcess/Signal(0)/Kill modelled by a ghost process table; time.NewTicker on the symbolic clock; net.Dial succeeds iff something listens at the address",
+      "composed runs: the world model of DESIGN.md section 4 (harness/w_*.go)"],
+     ["net.Dial", "os.FindProcess", "os.Process.Signal/Kill", "time.Ticker", "world model"],
+     "histories longer than the ones listed; custom ReattachFunc implementations other than the default",
+     text="Bounded symbolic model checking of the real reattach / ReattachConfig / Kill with cmdrunner.ReattachFunc, CmdAttachedRunner and pidWait, alone and composed with the plugin's real Serve (as a process and in test mode): nothing listening => ErrProcessNotFound; a client built from a running plugin's reattach configuration (also at second hand) reaches that same instance with the same protocol and can dispense; Kill on it terminates that plugin - except in test mode, where the server keeps running and stops only when its context is cancelled.",
+     note="Bound: the listed histories. Process table, dial and ticker are models. " + ENGINE)
 WORLD = ["prims.go", "w_base.go", "w_net.go", "w_yamux.go", "w_grpc.go", "w_compose.go", "w_harness.go"]
 WORLD_ASSUME = ["world model (harness/w_*.go): processes with per-process environment, pipes, ghost file system, listeners and connections by address, yamux sessions/streams as FIFO pairs, net/rpc calls served by the real receiver in a goroutine of the peer process with marshalled (copied) arguments, gRPC cut at the generated-code interfaces (real broker/controller/stdio implementations registered and served), crypto/tls as a contract over tls.Config fields with certificates as identities",
                 "the plugin process runs go-plugin's real Serve; the host runs the real NewClient/Start/Client/Dispense/Kill; launch through a RunnerFunc runner or through exec.Cmd models under the real CmdRunner"]
@@ -171,12 +176,14 @@ GRPCSEAM = "gRPC seam at the generated-code interfaces: Register*Server records 
 YAMUX = "yamux model: a session is a pair of FIFO queues of streams; Open enqueues for the peer's Accept; Accept fails once the session is closed; in-order, loss-free (yamux's correctness is assumed)"
 prop("C18", ["prims.go", "c18.go"],
      [run("lifecycle", "harnessC18", ["mux", "no-mux"],
-          quick={"bound": "plugin side, gRPC, multiplexing on/off, no brokered listeners: a whole life cycle Serve -> host connects -> controller Shutdown -> Serve returns, against the ghost file system"})],
-     [GHOSTFS, GRPCSEAM, YAMUX, EXIT],
-     ["net.Listen", "grpc.Server", "yamux", "os.Pipe", "os/signal"],
-     "brokered listeners, host-side socket directory, goroutine census (recorded as future work)",
-     text="Bounded symbolic model checking of a whole plugin life cycle on the real Serve / GRPCServer.Init/Serve/Stop / grpcControllerServer.Shutdown / GRPCServerMuxer / rmListener against a ghost file system: after a graceful shutdown no socket file created by go-plugin remains.",
-     note="Bound: plugin side, gRPC, mux on/off, no brokered listeners. " + ENGINE)
+          quick={"bound": "plugin side, gRPC, multiplexing on/off, no brokered listeners: a whole life cycle Serve -> host connects -> controller Shutdown -> Serve returns, against the ghost file system"}),
+      run("world", "harnessC18world", ["dispensed", "host-serves", "plugin-serves", "host-listener-left-open", "clean"], files=WORLD,
+          quick={"params": {"trace": 0}, "bound": "host x plugin composed, net/rpc, gRPC and gRPC+mux, both launch methods; history: dispense and call; optionally a brokered server on the host dialled and called by the plugin; optionally a brokered server on the plugin dialled and called by the host; optionally a host-side brokered listener still open at Kill (custom runner); then Kill and six seconds"})],
+     [GHOSTFS, GRPCSEAM, YAMUX, EXIT] + WORLD_ASSUME,
+     WORLD_STUBS,
+     "histories with more than one brokered connection per direction; stdio traffic; goroutines inside gRPC and yamux (delegated)",
+     text="Bounded symbolic model checking of whole life cycles on the real code against a ghost file system and a goroutine census: plugin side alone (Serve / GRPCServer / muxer / rmListener) and host and plugin composed with histories of dispenses and brokered connections in both directions: after Kill and a graceful exit no socket file or temporary directory created by go-plugin is left on either side, and no goroutine go-plugin started for the client is still alive in the host six seconds later.",
+     note="Bound: the listed histories; canonical schedule. " + ENGINE)
 
 # ------------------------------------------------------------------------------------------------ C04
 prop("C04", ["prims.go", "c04.go"],
